@@ -293,7 +293,12 @@ def subquery_starts(ctx: Ctx, cls, fn: FuncInfo):  # type: ignore[no-untyped-def
                 head, _, rest = p.partition(".")
                 return mapping.get(head, head) + ("." + rest if rest else "")
 
-            out.append({"call": c, "start": mapped(kw(ctor, "obj")), "root": mapped(kw(ctor, "root")),
+            start_e = kw(ctor, "obj")
+            if (isinstance(start_e, ast.IfExp) and path_of(start_e.test) == "self.path.fake_root" and isinstance(start_e.body, ast.List)
+                    and len(start_e.body.elts) == 1 and ast.dump(start_e.body.elts[0]) == ast.dump(start_e.orelse)):
+                # `[X] if self.path.fake_root else X`: what finditer() does for a `^` query
+                start_e = start_e.orelse
+            out.append({"call": c, "start": mapped(start_e), "root": mapped(kw(ctor, "root")),
                         "fc": mapped(kw(ctor, "filter_context")), "ctx": ctxp})
     return out
 
